@@ -428,7 +428,7 @@ func (r *importSet) TypeName(pk WorkingPackage, tpe types.Type) string {
 			%s
 		}`, strings.Join(fields, "\n"))
 	case *types.Interface:
-		if realtp.NumMethods() == 0 {
+		if realtp.NumMethods() == 0 && realtp.NumEmbeddeds() == 0 {
 			return "any"
 		}
 		embeded := iterate(realtp.NumEmbeddeds(), realtp.EmbeddedType, func(idx int, v types.Type) string {
@@ -445,6 +445,17 @@ func (r *importSet) TypeName(pk WorkingPackage, tpe types.Type) string {
 			%s
 			%s
 		}`, strings.Join(embeded, "\n"), strings.Join(fields, "\n"))
+	case *types.Union:
+		terms := []string{}
+		for i := 0; i < realtp.Len(); i++ {
+			t := realtp.Term(i)
+			s := r.TypeName(pk, t.Type())
+			if t.Tilde() {
+				s = "~" + s
+			}
+			terms = append(terms, s)
+		}
+		return strings.Join(terms, " | ")
 	case *types.Alias:
 		tpname := realtp.Obj().Name()
 
